@@ -34,6 +34,7 @@ type Profile struct {
 	MemOnly                                                 int // percent of histories on a memory-only store
 	MaxColls                                                int
 	BigVals                                                 bool
+	BadNames                                                bool // one history in four gets collection names that are not valid UTF-8 (JSON cannot carry them: Flush must refuse; profiles without CopyTo only)
 	LongNames                                               bool // one history in five gets a collection name of 4100-4300 bytes: a root record longer than 4 KiB
 	NoFold                                                  bool // do not use case-folding collections
 	NoLowerOverwrite                                        bool // never overwrite a key with a lower priority (C13 heap order)
@@ -254,6 +255,12 @@ func (g *Gen) history() []string {
 		g.namePool = append(g.namePool, n)
 		if len(g.namePool) >= nn {
 			break
+		}
+	}
+	if g.p.BadNames && r.Intn(4) == 0 {
+		bad := []string{"\xff", "\xfe", "a\xc3", "\xed\xa0\x80", "\xc0\x80", "b\xf4\x90\x80\x80"}
+		for i := 0; i < 1+r.Intn(2); i++ {
+			g.namePool = append(g.namePool, bad[r.Intn(len(bad))])
 		}
 	}
 	if g.p.LongNames && r.Intn(5) == 0 {
